@@ -70,6 +70,42 @@ func (s *Store) SavePeerState(peer *Peer) error {
 	})
 }
 
+// UpdatePeerState reads the stored state of a peer, applies update to it and
+// persists the result in a single write transaction, so that concurrent
+// writers (poll loop, message handler) never overwrite each other with a stale
+// copy. When the peer is not stored yet, update receives a fresh peer if
+// create is set; otherwise ErrPeerNotFound is returned.
+func (s *Store) UpdatePeerState(id PeerID, create bool, update func(peer *Peer) error) error {
+	key := []byte(id.String())
+	return s.db.Update(func(tx *bolt.Tx) error {
+		bucket := tx.Bucket(pollBucketName)
+		if bucket == nil {
+			return errPollBucketMissing
+		}
+
+		var peer *Peer
+		if data := bucket.Get(key); data != nil {
+			record, err := unmarshalPeerRecord(key, data)
+			if err != nil {
+				return err
+			}
+			peer, err = record.toPeer(id.String())
+			if err != nil {
+				return fmt.Errorf("materialize peer %s: %w", id.String(), err)
+			}
+		} else if create {
+			peer = NewPeer(id, "")
+		} else {
+			return ErrPeerNotFound
+		}
+
+		if err := update(peer); err != nil {
+			return err
+		}
+		return persistPeer(bucket, key, peer)
+	})
+}
+
 // GetPeerState retrieves the stored state for a peer.
 func (s *Store) GetPeerState(id PeerID) (*Peer, error) {
 	var record peerRecord
